@@ -44,7 +44,7 @@ ASSUMPTIONS = [
     'cancellation of waiters/holders is outside the property and not exercised',
 ]
 SHARDS = {'quick': 1, 'thorough': 16}
-TIMEOUT = {'quick': 300, 'thorough': 900}
+TIMEOUT = {'quick': 900, 'thorough': 900}
 
 
 def FLOORS(tier):
